@@ -29,6 +29,9 @@ def templates(nmodes):
     T["BS01"] = ("BSgate", [0.4, 0.3], [0, 1], False)
     T["BS10"] = ("BSgate", [0.4, 0.3], [1, 0], False)
     T["BS.H01"] = ("BSgate", [0.4, 0.3], [0, 1], True)
+    # a 50:50 beamsplitter that is NOT symmetric under exchanging its modes (phi != pi/2)
+    T["BS50_01"] = ("BSgate", [np.pi / 4, 0.3], [0, 1], False)
+    T["BS50_10"] = ("BSgate", [np.pi / 4, 0.3], [1, 0], False)
     T["BSsym01"] = ("BSgate", [np.pi / 4, np.pi / 2], [0, 1], False)
     T["BSsym10"] = ("BSgate", [np.pi / 4, np.pi / 2], [1, 0], False)
     return T
@@ -110,8 +113,8 @@ def build(ctx):
             if len(s1) > len(s2):
                 continue
             # pairs that can be confused: same op families in the same order, or one a prefix of the other
-            fam1 = [x.split(".")[0].rstrip("0123456789").replace("sym", "") for x in s1]
-            fam2 = [x.split(".")[0].rstrip("0123456789").replace("sym", "") for x in s2]
+            fam1 = [x.split(".")[0].rstrip("0123456789").replace("sym", "").replace("50_", "") for x in s1]
+            fam2 = [x.split(".")[0].rstrip("0123456789").replace("sym", "").replace("50_", "") for x in s2]
             if fam1 == fam2[:len(fam1)] or sorted(fam1) == sorted(fam2):
                 pairs.append((s1, s2))
     if not ctx.thorough:
